@@ -56,16 +56,19 @@ Ltac px_step rtac on_oracle on_other :=
   | |- exec_block ?P ?O ?A ?t ?u (S ?f) ?en ?cs ?s ?kn ?kr ?kx =>
       rewrite (exec_block_eq P O A t u f en cs s kn kr kx); cbv beta iota
   | |- exec ?P ?O ?A ?t ?u (S ?f) ?en ?c ?s _ _ _ =>
+      px_abs;
       lazymatch goal with |- exec _ _ _ _ _ _ _ _ _ ?kn ?kr ?kx => rewrite (exec_eq P O A t u f en c s kn kr kx) end;
       rtac
   | |- handle ?P ?O ?A ?t ?u (S ?f) ?en ?x ?hs ?s _ _ _ =>
+      px_abs;
       lazymatch goal with |- handle _ _ _ _ _ _ _ _ _ _ ?kn ?kr ?kx => rewrite (handle_eq P O A t u f en x hs s kn kr kx) end;
       rtac
   | |- exec_for ?P ?O ?A ?t ?u (S ?f) ?en ?tg ?vs ?b ?s _ _ _ =>
+      px_abs;
       lazymatch goal with |- exec_for _ _ _ _ _ _ _ _ _ _ _ ?kn ?kr ?kx => rewrite (exec_for_eq P O A t u f en tg vs b s kn kr kx) end;
       rtac
-  | |- call_fun _ _ _ _ _ _ _ _ _ _ _ _ _ _ _ => rtac
-  | |- call_method _ _ _ _ _ _ _ _ _ _ _ _ _ _ _ => rtac
+  | |- call_fun _ _ _ _ _ _ _ _ _ _ _ _ _ _ _ => px_abs; rtac
+  | |- call_method _ _ _ _ _ _ _ _ _ _ _ _ _ _ _ => px_abs; rtac
   | |- match _ with _ => _ end =>
       lazymatch goal with
       | |- ?T =>
@@ -102,6 +105,7 @@ Ltac px_step rtac on_oracle on_other :=
         end
       end;
       rtac
+  | |- _ => px_resume; rtac
   end.
 
 (* [is] tests: a folded test on concrete values is computed, one on a symbolic value is rewritten
